@@ -186,9 +186,9 @@ def run(ctx):
             # skip through autoref wrappers
             while par is not None and par["k"] in ("addr_of", "use"):
                 par = pm.get(id(par))
-            mb = repo.mb(n)
+            mb = repo.macros(n)
             ok = None
-            if any(m.startswith("bang:debug_assert") for m in mb):
+            if any(m.startswith("debug_assert") for m in mb):
                 ok = "debug assertion"
             elif par is not None and par["k"] in ("call", "mcall") and par.get("callee"):
                 pn = strip_generics(par["callee"]["path"])
